@@ -381,6 +381,8 @@ def do_check(pid, tier, seed, args, workdir, t_start):
         for label, w in r['reach'].items():
             if w.get('reproduced') is False:
                 inconclusive.append((r['harness'], 'reach-replay-mismatch', label + ' native=' + json.dumps(w.get('native'))))
+                os.makedirs(wdir, exist_ok=True)
+                json.dump(w, open(os.path.join(wdir, 'reach_mismatch__%s__%s.json' % (r['harness'], re.sub(r'[^A-Za-z0-9_.-]+', '_', label))), 'w'), indent=1)
             elif w.get('reproduced') is None:
                 inconclusive.append((r['harness'], 'replay-error', label))
         for w in r['violations']:
